@@ -10,6 +10,10 @@
     relative to the up to four requests and before the call (stale view); conflicts are carried into further cycles.
     Every request (endpoint, content type, payload / decoded ops), response code and the server object after it is
     replayed by TLC against the reference (Patching!ClassifyC08).
+(D) daemons and timers: the real operator with several timers / daemons on one object, every invocation accumulating a status
+    field and a transformation in its own patch while the others work: each invocation's content is in exactly one request
+    and, once the handlers have stopped accumulating and the object is at rest, the effect of its transformation is on the
+    object exactly once (the handlers' own writes conflict with each other: 422s and re-evaluations are part of the runs).
 (C) closed loop: the real operator with a handler that adds a non-idempotent transformation per handled change, foreign
     writes between the event and the JSON-patch (422), and a following cycle that fails: at rest the effect of every
     handled change is on the object exactly once.
@@ -239,6 +243,59 @@ def loop_case(sc: dict[str, Any]) -> dict[str, Any]:
         sim.close()
 
 
+def dloop_case(sc: dict[str, Any]) -> dict[str, Any]:
+    """The real operator with several timers / daemons on ONE object: every invocation accumulates a status field and a
+    transformation of its own in ITS patch, then works for a scripted time. No foreign writers, no faults: whatever an
+    invocation accumulated must reach the server in exactly one request, and its transformation must be evaluated once."""
+    import asyncio
+    import kopf
+    from sim.opsim import GROUP, PLURAL, VERSION, Sim
+    sim = Sim(wall_budget=20)
+    try:
+        reg = sim.registry()
+        accum: list[str] = []
+        fncalls: list[str] = []
+
+        def make(hid: str, durs: list[int], daemon: bool):
+            n = [0]
+
+            async def fn(patch, stopped=None, **_):
+                n[0] += 1
+                if sim.now < sc['quiet']:
+                    m = f'{hid}-{n[0]}'
+                    patch.status[m] = 1
+
+                    def add(body, m=m):        # NOT state-checking on purpose: a transformation computed from a stale state is never
+                        fncalls.append(m)      # written (422), so re-evaluating it on the fresh state must still give the effect once
+                        body.setdefault('spec', {}).setdefault('tags', []).append(m)
+                    patch.fns.append(add)
+                    accum.append(m)
+                await asyncio.sleep(durs[(n[0] - 1) % len(durs)])
+                if daemon:
+                    raise kopf.TemporaryError('again', delay=1)
+            fn.__name__ = fn.__qualname__ = hid
+            return fn
+        for hid, kind, durs in sc['handlers']:
+            if kind == 'timer':
+                kopf.timer(GROUP, VERSION, PLURAL, registry=reg, id=hid, interval=sc['interval'])(make(hid, durs, False))
+            else:
+                kopf.daemon(GROUP, VERSION, PLURAL, registry=reg, id=hid)(make(hid, durs, True))
+        op = sim.operator('op1', reg, sim.settings(watching__reconnect_backoff=1))
+        sim.world.at(1, lambda: sim.create('o1', {'x': 1}), 1)
+        sim.run(sc['end'])
+        sent = []
+        for e in sim.recorder.events:
+            if e['ev'] == 'srv.req' and e.get('kind') == 'patch' and e.get('plural') == PLURAL and e.get('loop') == 'op1' and e.get('ptype') == 'merge':
+                body = _body_of(sim, e) or {}
+                ms = sorted(k for k, v in (body.get('status') or {}).items() if v == 1 and '-' in k)
+                if ms: sent.append(ms)
+        tags = list(((sim.obj('o1') or {}).get('spec') or {}).get('tags') or [])
+        op.finish()
+        return {'kind': 'dloop', 'accum': accum, 'sent': sent, 'tags': tags, 'nfn': len(fncalls), 'case': sc}
+    finally:
+        sim.close()
+
+
 def _body_of(sim: Any, e: dict[str, Any]) -> Any:
     for r in sim.srv.requests:
         if getattr(r, 'id', None) == e.get('req'):
@@ -265,18 +322,26 @@ def run(ctx, rep) -> None:
     from concurrent.futures import ProcessPoolExecutor
     lscs = [{'id': f'loop-{c}-{f}-{len(e)}-{int(pt)}', 'conflicts': c, 'fail_after_conflict': f, 'edits': e, 'end': 80, 'partial': pt}
             for c in (0, 1, 2) for f in (0, 1, 2) for e in ([], [10], [10, 11], [10, 25]) for pt in (False, True)]
+    rnd = random.Random(f'dloop-{ctx.seed}')
+    dscs = [{'id': f'dloop-{ctx.seed}-{k}', 'interval': rnd.choice([2, 3, 5]), 'quiet': 20, 'end': 45,
+             'handlers': [(f'h{j}', rnd.choice(['timer', 'timer', 'daemon']), [rnd.choice([0, 1, 2, 3, 4]) for _ in range(3)]) for j in range(rnd.choice([2, 2, 3]))]}
+            for k in range(24 if ctx.quick else 400)]
     with ProcessPoolExecutor(16) as ex:
         runs += list(ex.map(loop_case, lscs))
+        runs += list(ex.map(dloop_case, dscs))
     bad = records.judge('Rec_Patching', [{k: v for k, v in r.items() if k != 'case'} for r in runs], rep=rep, shard=700)
     rep.evaluations += len(runs); rep.traces += len(runs)
     for r in runs:
-        if r['kind'] == 'loop' or r['case']['fns'] or r['case']['foreign']:
+        if r['kind'] in ('loop', 'dloop') or r['case']['fns'] or r['case']['foreign']:
             rep.nontrivial(r['case'])
     rep.sample({'case': runs[7]['case'], 'requests': [[(s.get('ptype'), s.get('onstatus'), s.get('code')) for s in c['steps'] if s['kind'] == 'req'] for c in runs[7]['calls']]})
     for i, label in sorted(bad.items()):
         r = runs[i]
         if r['kind'] == 'loop':
             rep.classified('', f'{label}: {r["case"]} handled={r["handled"]} tags={r["tags"]}', payload=r)
+            continue
+        if r['kind'] == 'dloop':
+            rep.classified('', f'{label}: {r["case"]} accumulated={r["accum"]} sent={r["sent"]} tags={r["tags"]}', payload=r)
             continue
         rep.classified(label if label.startswith('F') else '', f'{label}: {r["case"]} requests='
                        f'{[[(s.get("ptype"), s.get("onstatus"), s.get("code")) for s in c["steps"] if s["kind"] == "req"] for c in r["calls"]]}', payload=r)
